@@ -1,7 +1,7 @@
 from __future__ import absolute_import, print_function, division
 from pony.py23compat import cmp, unicode, buffer, int_types
 
-import builtins, json, os, re, sys, types, datetime, logging, itertools, warnings, inspect, ast
+import builtins, json, os, re, sys, types, datetime, logging, itertools, warnings, inspect, ast, weakref
 from operator import attrgetter, itemgetter
 from itertools import chain, starmap, repeat
 from time import time
@@ -336,15 +336,18 @@ class Local(localbase):
 
 local = Local()
 
+live_caches = weakref.WeakSet()  # every SessionCache that is alive, including those of suspended db_session generators
+
 def _after_fork_in_child():
     # A forked child must never use (or roll back, or close) a connection inherited from its parent:
-    # sessions that were open at the fork point continue in the child on a connection of their own
-    for database, cache in list(local.db2cache.items()):
+    # sessions that were open (or suspended in a generator) at the fork point continue in the child
+    # on a connection of their own
+    for cache in list(live_caches):
         connection = cache.connection
         if connection is not None:
             cache.connection = None
             cache.in_transaction = False
-            database.provider.detach_forked_connection(connection)
+            cache.database.provider.detach_forked_connection(connection)
 
 if hasattr(os, 'register_at_fork'):
     os.register_at_fork(after_in_child=_after_fork_in_child)
@@ -1748,6 +1751,7 @@ num_counter = itertools.count()
 class SessionCache(object):
     def __init__(cache, database):
         cache.is_alive = True
+        live_caches.add(cache)
         cache.num = next(num_counter)
         cache.database = database
         cache.objects = set()
